@@ -51,6 +51,28 @@ def policer_integration(rep):
                                    "%s/%s: event order %r (every request must be preceded by exactly one policer consultation)" % (driver, ver, log[:40]))
             rep.case(("policer-session", driver, ver), True, sample={"driver": driver, "version": ver, "requests": nreq},
                      classes=["session_integration:" + driver])
+    # limit_rps=R must really limit: k+1 consecutive requests of such a session span more than (k-1)/R seconds.  The clock
+    # is read before the first call and after the last one returned, so scheduling noise can only lengthen the measured
+    # span - a session that ignores limit_rps finishes these calls in a few milliseconds.
+    import time as _time
+    R, NREQ = 25, 6
+    for driver in ("sync", "async"):
+        cfg = ag.Cfg("v2c")
+
+        def handler2(d):
+            req = ag.decode_request(cfg, d, strict=False)
+            return [ag.build_reply(cfg, req, [rb.varbind(rb.enc_oid(v[0]), rb.enc_int(1)) for v in req["varbinds"]])]
+
+        t0 = _time.monotonic()
+        outs = drivers.run_calls(G, driver, cfg, [("get", "1.3.6.1.2.1.1.1.0")] * NREQ, handler2, timeout=5.0, session_kw={"limit_rps": R})
+        dt = _time.monotonic() - t0
+        if any(o.kind != "ok" for o in outs):
+            raise core.Failure("rate-limited-session-failed", "%s session with limit_rps=%d: %r" % (driver, R, outs))
+        if dt <= (NREQ - 2) / R:
+            raise core.Failure("limit-rps-not-applied:" + driver, "%s session with limit_rps=%d sent %d requests within %.4f s; they must span more than %.3f s"
+                               % (driver, R, NREQ, dt, (NREQ - 2) / R))
+        rep.case(("limit-rps-session", driver), True, sample={"driver": driver, "limit_rps": R, "requests": NREQ, "span_s": round(dt, 3)},
+                 classes=["session_limit_rps:" + driver])
     # constructor plumbing: limit_rps builds an RPS policer, invalid rates are refused
     for bad in (0, -1):
         try:
